@@ -76,13 +76,21 @@ func ConsumeMultisignatureVerificationGas(
 ) error {
 	size := sig.BitArray.Count()
 	sigIndex := 0
+	pubKeys := pubkey.GetPubKeys()
+	// the same shape checks as multisig.VerifyMultisignature, before anything is indexed
+	if size != len(pubKeys) {
+		return fmt.Errorf("bit array size is incorrect, expecting: %d", len(pubKeys))
+	}
+	if len(sig.Signatures) != sig.BitArray.NumTrueBitsBefore(size) {
+		return fmt.Errorf("number of signatures doesn't equal the number of true bits in bitarray")
+	}
 
 	for i := 0; i < size; i++ {
 		if !sig.BitArray.GetIndex(i) {
 			continue
 		}
 		sigV2 := signing.SignatureV2{
-			PubKey:   pubkey.GetPubKeys()[i],
+			PubKey:   pubKeys[i],
 			Data:     sig.Signatures[sigIndex],
 			Sequence: accSeq,
 		}
